@@ -866,6 +866,10 @@ class Job:
                     )
                 else:
                     raise error
+            # The moved job no longer shares its state point with shallow
+            # copies left behind in the original project.
+            jobs = self.statepoint._jobs
+            jobs[:] = [job for job in jobs if job is not self]
             self.__dict__.update(dst.__dict__)
 
             # Update the destination project's state point cache
